@@ -6,6 +6,7 @@ TRUSTED_BASE = [
     "Coq 8.16.1 kernel (coqc, full .vo builds via coq_makefile; vm_compute used, native_compute not used)",
     "Sem/*.v: hand-written semantics of Rust integers (64-bit usize, both overflow profiles), slices, panics, io::Error kinds, loops, collaborators as parameters",
     "tie T1: rs2v ast (syn) + vlib/translate.py (syntax-directed translator with a library table, struct tables and three monad/eta peephole rules) regenerate Gen/*Gen.v from /repo on every run; GenEq/*.v re-prove translated = model per function",
+    "tie T1 also compares the items outside function bodies (macros, imports, traits, impl headers and overridden trait methods, type definitions, crate attributes) with the pinned inventory vlib/items_baseline.json: the bodies are read under that environment",
     "tie T2: the extracted model (ExtrOcamlBasic only, no Extract Constant) and the compiled crates run on the same cases in dev and release profiles",
     "harness/ (Rust drivers), mlrun/drv.ml (OCaml driver), vlib/ (generators, comparator, checkers); rustc 1.95; catch_unwind as panic observer",
 ]
